@@ -14,6 +14,9 @@ pub const CRASH_EXIT: i32 = 77;
 /// that tramples the heap before the fatal signal cannot destroy the description of the case.
 #[repr(C)]
 pub struct Ctx {
+  /// bumped whenever the published case changes (progress indicator for the watchdog)
+  seq: AtomicU64,
+  active: std::sync::atomic::AtomicBool,
   n: usize,
   idx: [u32; 24],
   head_len: usize,
@@ -129,6 +132,7 @@ pub fn arm(property: &str, path: &std::path::Path) {
       libc::sigaction(s, &sa, std::ptr::null_mut());
     }
   }
+  start_watchdog();
 }
 
 /// Publish the case this thread is about to run (`head` = JSON object text without closing brace).
@@ -141,6 +145,7 @@ pub fn set_case(head: String) {
       p = m as *mut Ctx;
     }
     CTX.with(|c| c.set(p));
+    REGISTRY.lock().unwrap().push(p as usize);
   }
   unsafe {
     let c = &mut *p;
@@ -149,6 +154,8 @@ pub fn set_case(head: String) {
     c.head[..n].copy_from_slice(&b[..n]);
     c.head_len = n;
     c.n = 0;
+    c.seq.fetch_add(1, Ordering::Relaxed);
+    c.active.store(true, Ordering::Relaxed);
   }
   ACTIVE.with(|a| a.set(true));
 }
@@ -167,11 +174,98 @@ pub fn set_idx(idx: &[usize]) {
       c.idx[i] = idx[i] as u32;
     }
     c.n = n;
+    c.seq.fetch_add(1, Ordering::Relaxed);
   }
 }
 
 pub fn clear_case() {
   ACTIVE.with(|a| a.set(false));
+  let p = CTX.with(|c| c.get());
+  if !p.is_null() {
+    unsafe { (*p).active.store(false, Ordering::Relaxed) };
+  }
+}
+
+static REGISTRY: std::sync::Mutex<Vec<usize>> = std::sync::Mutex::new(Vec::new());
+
+/// seconds a worker may stay on one published case before the run is declared hung
+pub fn hang_secs() -> u64 {
+  std::env::var("VERIF_HANG_SECS").ok().and_then(|s| s.parse().ok()).unwrap_or(90)
+}
+
+/// Watchdog: a worker that stays on the same case for `hang_secs()` is executing subject code
+/// that does not return (the engines themselves spend micro- to milliseconds per case).  The case
+/// is written out like a crash and the process exits with CRASH_EXIT; the parent confirms it.
+fn start_watchdog() {
+  std::thread::spawn(|| {
+    let limit = hang_secs();
+    let mut last: std::collections::HashMap<usize, (u64, std::time::Instant)> = std::collections::HashMap::new();
+    loop {
+      std::thread::sleep(std::time::Duration::from_millis(500));
+      let regs: Vec<usize> = REGISTRY.lock().unwrap().clone();
+      for p in regs {
+        let c = unsafe { &*(p as *const Ctx) };
+        if !c.active.load(Ordering::Relaxed) {
+          last.remove(&p);
+          continue;
+        }
+        let s = c.seq.load(Ordering::Relaxed);
+        let now = std::time::Instant::now();
+        let e = last.entry(p).or_insert((s, now));
+        if e.0 != s {
+          *e = (s, now);
+        } else if now.duration_since(e.1).as_secs() >= limit {
+          unsafe { dump_and_exit(c, 0, limit) };
+        }
+      }
+    }
+  });
+}
+
+unsafe fn dump_and_exit(ctx: &Ctx, sig: libc::c_int, hung_secs: u64) -> ! {
+  unsafe {
+    static ENTERED2: std::sync::atomic::AtomicBool = std::sync::atomic::AtomicBool::new(false);
+    if ENTERED2.swap(true, Ordering::SeqCst) {
+      loop {
+        libc::pause();
+      }
+    }
+    let buf: &mut [u8] = &mut *std::ptr::addr_of_mut!(BUF);
+    let mut pos = 0;
+    put(buf, &mut pos, b"{\"property\":\"");
+    let pl = PROPERTY.iter().position(|b| *b == 0).unwrap_or(0);
+    put(buf, &mut pos, &PROPERTY[..pl]);
+    if sig == 0 {
+      put(buf, &mut pos, b"\",\"signature\":\"hang:no-return");
+      put(buf, &mut pos, b"\",\"message\":\"the subject did not return from this case within ");
+      put_num(buf, &mut pos, hung_secs);
+      put(buf, &mut pos, b" s");
+    } else {
+      put(buf, &mut pos, b"\",\"signature\":\"crash:signal-");
+      put_num(buf, &mut pos, sig as u64);
+      put(buf, &mut pos, b"\",\"message\":\"subject died with signal ");
+      put_num(buf, &mut pos, sig as u64);
+      put(buf, &mut pos, b" while running this case");
+    }
+    put(buf, &mut pos, b"\",\"evaluations_before\":");
+    put_num(buf, &mut pos, EVALS.load(Ordering::Relaxed));
+    put(buf, &mut pos, b",\"case\":");
+    put(buf, &mut pos, &ctx.head[..ctx.head_len.min(HEAD_MAX)]);
+    put(buf, &mut pos, b",\"idx\":[");
+    for i in 0..ctx.n {
+      if i > 0 {
+        put(buf, &mut pos, b",");
+      }
+      put_num(buf, &mut pos, ctx.idx[i] as u64);
+    }
+    put(buf, &mut pos, b"]}}\n");
+    let fd = libc::open(std::ptr::addr_of!(OUT_PATH) as *const libc::c_char, libc::O_WRONLY | libc::O_CREAT | libc::O_TRUNC, 0o644);
+    if fd >= 0 {
+      libc::write(fd, buf.as_ptr() as *const libc::c_void, pos);
+      libc::close(fd);
+    }
+    libc::_exit(CRASH_EXIT);
+  }
 }
 
 /// `value` serialised as a JSON object, closing brace removed (for `set_case`).
@@ -180,4 +274,29 @@ pub fn head_of(v: &serde_json::Value) -> String {
   assert!(s.ends_with('}'));
   s.pop();
   s
+}
+
+/// Re-run a recorded case alone (`<bin> replay <artefact>`): true when the child dies, reports a
+/// violation, or does not come back within `secs` seconds (then it is killed).
+pub fn confirm_replay(bin: &std::path::Path, artefact: &std::path::Path, secs: u64) -> bool {
+  use std::os::unix::process::ExitStatusExt;
+  let mut ch = match std::process::Command::new(bin).arg("replay").arg(artefact).stdout(std::process::Stdio::null()).stderr(std::process::Stdio::null()).spawn() {
+    Ok(c) => c,
+    Err(_) => return false,
+  };
+  let t0 = std::time::Instant::now();
+  loop {
+    match ch.try_wait() {
+      Ok(Some(st)) => return st.signal().is_some() || st.code() == Some(CRASH_EXIT) || st.code() == Some(1),
+      Ok(None) => {
+        if t0.elapsed().as_secs() >= secs {
+          let _ = ch.kill();
+          let _ = ch.wait();
+          return true;
+        }
+        std::thread::sleep(std::time::Duration::from_millis(100));
+      }
+      Err(_) => return false,
+    }
+  }
 }
